@@ -134,9 +134,14 @@ func reps(sets ...charcode.CodeSpaceRange) []byte {
 }
 
 type runner struct {
-	e      *common.Env
-	nextID int
-	maxLen int
+	e        *common.Env
+	nextID   int
+	maxLen   int
+	maxNodes int
+	// light: only one string per pair of representatives (used for the
+	// exhaustive enumeration of pairs in the thorough tier, where every set
+	// also goes through the certified validator)
+	light bool
 }
 
 func (t *runner) id() string {
@@ -162,12 +167,32 @@ func (t *runner) testSet(csr charcode.CodeSpaceRange, modelShare int) {
 	e.Line("impl.obs", "%s.spec 0 0", id)
 	e.Dist[fmt.Sprintf("set-of-%d", len(csr))]++
 
+	// certified validator: the extracted lin_ok is run on the node array the
+	// implementation built (and on the model's own linearisation); lin_sound
+	// then gives decode = tree-level decode for all strings, tdecode_spec
+	// gives tree-level decode = specification for all strings.
+	{
+		var nb []byte
+		for _, n := range c.VerifNodes() {
+			nb = append(nb, n.Bound, byte(n.Child>>8), byte(n.Child))
+		}
+		lid := t.id()
+		e.Line("cases.txt", "%s L %s %s", lid, wire, common.Hex(nb))
+		e.Line("impl.obs", "%s 1", lid)
+		e.Line("impl.obs", "%s.model 1", lid)
+		e.Dist["validated-node-arrays"]++
+		t.maxNodes = max(t.maxNodes, len(nb)/3)
+	}
+
 	vv := reps(csr)
 	var strs [][]byte
 	for _, a := range vv {
 		strs = append(strs, []byte{a})
-		for _, b := range vv {
+		for j, b := range vv {
 			strs = append(strs, []byte{a, b})
+			if t.light && j > 0 {
+				continue
+			}
 			strs = append(strs, []byte{a, b, vv[e.Rand.IntN(len(vv))]})
 			strs = append(strs, []byte{a, b, vv[e.Rand.IntN(len(vv))], vv[e.Rand.IntN(len(vv))], 0x41})
 		}
@@ -245,9 +270,23 @@ func (t *runner) testSet(csr charcode.CodeSpaceRange, modelShare int) {
 		e.Fail("csr-panic", "CodeSpaceRange panics: "+rerr, wire)
 		return
 	}
+	if !csr.Equivalent(rep) || !rep.Equivalent(csr) {
+		e.Fail("csr-not-equivalent", "CodeSpaceRange() is not Equivalent() to the range set the codec was built from",
+			map[string]any{"csr": wire, "reported": csrWire(rep)})
+	}
 	vv2 := reps(csr, rep)
 	if len(vv2) > 14 {
 		vv2 = vv2[:14]
+	}
+	// model leg: matchLen of the reported ranges vs match_len of the model's walk_ranges
+	for i := 0; i < 6; i++ {
+		s := make([]byte, 1+e.Rand.IntN(4))
+		for j := range s {
+			s[j] = vv2[e.Rand.IntN(len(vv2))]
+		}
+		mid := t.id()
+		e.Line("cases.txt", "%s M %s %s", mid, wire, common.Hex(s))
+		e.Line("impl.obs", "%s %d", mid, matchLen(rep, s))
 	}
 	var buf [4]byte
 	var rec func(d int) bool
@@ -270,6 +309,59 @@ func (t *runner) testSet(csr charcode.CodeSpaceRange, modelShare int) {
 		return true
 	}
 	rec(0)
+}
+
+// testHuge: 256 three-byte ranges <i i i>-<FF FF i>.  The linearised tree needs
+// more nodes than the uint16 child index can address: NewCodec must answer
+// with an error (it used to panic, F30).  Hard requirement, not a finding.
+func (t *runner) testHuge() {
+	e := t.e
+	var csr charcode.CodeSpaceRange
+	for i := 0; i < 256; i++ {
+		csr = append(csr, charcode.Range{Low: []byte{byte(i), byte(i), byte(i)}, High: []byte{0xff, 0xff, byte(i)}})
+	}
+	what := map[string]any{"csr": "256 ranges <i i i>-<FF FF i>, i = 00..FF"}
+	e.Count(true, "huge-256x3", "set-huge")
+	c, err := safeNewCodec(csr)
+	if err != nil && strings.HasPrefix(err.Error(), "panic") {
+		e.Fail("newcodec-panic-large-tree", "NewCodec panics for a valid range set whose tree needs more than 65531 nodes: "+err.Error(), what)
+		return
+	}
+	if err != nil || c == nil {
+		e.Dist["huge-rejected-with-error"]++
+		return
+	}
+	// if a codec is returned after all it must be right
+	for a := 0; a < 256; a += 5 {
+		for b := 0; b < 256; b += 3 {
+			for _, cc := range []int{0, 1, 5, 77, 200, 255} {
+				s := []byte{byte(a), byte(b), byte(cc), 0}
+				_, k, v, perr := safeDecode(c, s)
+				wantK, wantV := specDecode(csr, s)
+				if perr != "" || v != wantV || k != wantK {
+					what["input"] = common.Hex(s)
+					e.Fail("large-tree-decodes-wrongly", "codec of a valid range set with more than 65531 nodes decodes wrongly", what)
+					return
+				}
+			}
+		}
+	}
+}
+
+// testLarge: a valid set with a few thousand nodes, below the limit: it must be
+// accepted (the size error is reserved for trees the uint16 index cannot hold)
+// and go through the model and the validator like every other set.
+func (t *runner) testLarge() {
+	var csr charcode.CodeSpaceRange
+	for i := 0; i < 40; i++ {
+		csr = append(csr, charcode.Range{Low: []byte{byte(i), byte(i), byte(i)}, High: []byte{0xff, 0xff, byte(i)}})
+	}
+	c, err := safeNewCodec(csr)
+	if err != nil || c == nil {
+		t.e.Fail("valid-set-rejected", fmt.Sprintf("NewCodec rejects a valid prefix-free set of 40 ranges: %v", err), csrWire(csr))
+		return
+	}
+	t.testSet(csr, 40)
 }
 
 func b2i(b bool) int {
@@ -334,6 +426,36 @@ func randRange(e *common.Env, n int) charcode.Range {
 	return charcode.Range{Low: lo, High: hi}
 }
 
+// splitSet cuts a random range into two or three pieces at one byte position,
+// the pieces being adjacent (so that CodeSpaceRange() merges them) or leaving
+// a gap of one or two values (which must survive the merge).
+func splitSet(e *common.Env) charcode.CodeSpaceRange {
+	n := 1 + e.Rand.IntN(4)
+	base := randRange(e, n)
+	pos := e.Rand.IntN(n)
+	lo, hi := int(base.Low[pos]), int(base.High[pos])
+	if hi-lo < 6 {
+		lo, hi = 0x20, 0x7e
+	}
+	pieces := 2 + e.Rand.IntN(2)
+	var csr charcode.CodeSpaceRange
+	cur := lo
+	for k := 0; k < pieces && cur <= hi; k++ {
+		end := hi
+		if k < pieces-1 {
+			end = cur + e.Rand.IntN(max(1, (hi-cur)/2))
+		}
+		r := charcode.Range{Low: append([]byte{}, base.Low...), High: append([]byte{}, base.High...)}
+		r.Low[pos], r.High[pos] = byte(cur), byte(end)
+		csr = append(csr, r)
+		cur = end + 1 + e.Rand.IntN(3)
+	}
+	if e.Rand.IntN(2) == 0 {
+		e.Rand.Shuffle(len(csr), func(i, j int) { csr[i], csr[j] = csr[j], csr[i] })
+	}
+	return csr
+}
+
 func main() {
 	e := common.New(12)
 	t := &runner{e: e, maxLen: 3}
@@ -348,6 +470,10 @@ func main() {
 	t.testSet(charcode.UCS2, 1)
 	t.testSet(charcode.CodeSpaceRange{}, 1)
 
+	// a valid, prefix-free set whose lookup tree needs more than 65531 nodes
+	t.testHuge()
+	t.testLarge()
+
 	rs := allRanges(2)
 	// all single ranges
 	for _, r := range rs {
@@ -355,11 +481,13 @@ func main() {
 	}
 	// pairs: all of them in the thorough tier, a seeded sample otherwise
 	if e.Thorough {
+		t.light = true
 		for i, r1 := range rs {
 			for _, r2 := range rs[i+1:] {
 				t.testSet(charcode.CodeSpaceRange{r1, r2}, 400)
 			}
 		}
+		t.light = false
 	} else {
 		for i := 0; i < 2500; i++ {
 			t.testSet(charcode.CodeSpaceRange{rs[e.Rand.IntN(len(rs))], rs[e.Rand.IntN(len(rs))]}, 40)
@@ -375,14 +503,22 @@ func main() {
 		}
 		t.testSet(csr, 40)
 	}
+	// a range cut into adjacent or nearly adjacent pieces (exercises the merge of CodeSpaceRange())
+	n = e.Pick(1500, 40000)
+	for i := 0; i < n; i++ {
+		t.testSet(splitSet(e), 40)
+	}
 	// three ranges over the boundary alphabet
-	n = e.Pick(1000, 100000)
+	n = e.Pick(1000, 60000)
 	for i := 0; i < n; i++ {
 		t.testSet(charcode.CodeSpaceRange{rs[e.Rand.IntN(len(rs))], rs[e.Rand.IntN(len(rs))], rs[e.Rand.IntN(len(rs))]}, 40)
 	}
 
 	e.Finish("range sets: corpus, all single ranges of <=2 bytes over the boundary alphabet {00,01,10,7F,80,FE,FF}, "+
-		"pairs (all in thorough, sampled in quick), triples and random sets of 1..4 ranges of 1..4 bytes; "+
+		"pairs (all in thorough, sampled in quick), triples, random sets of 1..4 ranges of 1..4 bytes and ranges cut into "+
+		"adjacent / nearly adjacent pieces; "+
 		"strings: all 1- and 2-byte strings over the induced class representatives plus 3- and 5-byte extensions; "+
-		"non-trivial = string longer than one byte against a non-empty range set, distinct by (set,string)", nil)
+		"non-trivial = string longer than one byte against a non-empty range set, distinct by (set,string); "+
+		"every accepted set's real node array additionally goes through the extracted certified validator lin_ok",
+		map[string]any{"largest_validated_node_array": t.maxNodes})
 }
